@@ -86,6 +86,9 @@ func ruleCompact(p *Prog, r *RuleResult) {
 	// (a) Reader.processBlock: decoded blocks are packed to the front of the buffers
 	s := resolveSide(p, "Reader")
 	pb := s.parent
+	if sf, sc := scanFunction(p, s); sf != pb && sc != nil {
+		pb = sf
+	}
 	pname := p.FnName(pb)
 	found := false
 	eachInstr(pb, func(i ssa.Instruction) {
